@@ -324,8 +324,8 @@ fn c18(ctx: &mut Ctx, w: &World, st: &St, t: &PTx, _params: &Params, fin: &Finis
     let mut needs: Vec<(Vec<u8>, bool, String)> = Vec::new(); // (hash, by_reference, item)
     for (i, variant) in &st.m.inputs {
         match &w.utxos[*i].0.owner {
-            Owner::Native(n) => needs.push((w.native[*n].hash().to_bytes(), *variant == 1, format!("input {}", i))),
-            Owner::Plutus(p) => needs.push((w.plutus[*p].hash().to_bytes(), *variant == 1, format!("input {}", i))),
+            Owner::Native(n) => needs.push((w.native[*n].hash().to_bytes(), *variant >= 1, format!("input {}", i))),
+            Owner::Plutus(p) => needs.push((w.plutus[*p].hash().to_bytes(), *variant == 1 || *variant == 3, format!("input {}", i))),
             _ => {}
         }
     }
